@@ -228,6 +228,23 @@ func scaledSentences() (conds []c09Str, cvals val.Item, upds []c09Str, uvals val
 		upds = append(upds, c09Str{"SET " + strings.Join(sets, ", "), "scaled-update"}, c09Str{"REMOVE " + strings.Join(rems, ", "), "scaled-update"}, c09Str{"ADD " + strings.Join(adds, ", "), "scaled-update"},
 			c09Str{"SET " + strings.Join(sets, ", ") + " REMOVE " + strings.Join(rems[:5], ", ") + " ADD " + strings.Join(adds[:5], ", "), "scaled-update"})
 	}
+	// ADD and DELETE through document paths (DynamoDB allows them on top-level attributes only: refusing is fine,
+	// performing or ignoring them is tolerated here - crashing is not): every path shape of the base item that ends
+	// in a number, a set, a set stored INSIDE a list or a map, with operands that add to, shrink or EMPTY the set
+	uvals[":five"] = val.Num("5")
+	uvals[":ssa"] = val.SS("a")
+	uvals[":ssall"] = val.SS("a", "b", "c")
+	uvals[":ns9"] = val.NS("9007199254740993")
+	uvals[":nsall"] = val.NS("9007199254740993", "1152921504606846977")
+	uvals[":nsdec"] = val.NS("0.1000000000000000000000000001")
+	for _, act := range []string{"ADD", "DELETE"} {
+		for _, pth := range []string{"m.k.y", "l[1]", "l[2][0]", "zbigl[1]", "zbigm.s", "zbigm.id", "zbigl[0]", "m.newset", "l[9]", "nope.x", "ss", "l[3].q"} {
+			for _, v := range []string{":five", ":ssa", ":ssall", ":ns9", ":nsall", ":nsdec"} {
+				upds = append(upds, c09Str{fmt.Sprintf("%s %s %s", act, pth, v), "path-add-delete"})
+			}
+		}
+		upds = append(upds, c09Str{act + " zbigl[1] :nsdec, ss :ssall", "path-add-delete"}, c09Str{"SET s = :five " + act + " zbigm.s :ns9", "path-add-delete"})
+	}
 	upds = append(upds, c09Str{"ADD ss :bigset", "scaled-update"}, c09Str{"DELETE ss :bigset", "scaled-update"}, c09Str{"SET l = list_append(l, :biglist)", "scaled-update"},
 		c09Str{"SET l = list_append(:biglist, l)", "scaled-update"}, c09Str{"SET nu = :biglist", "scaled-update"}, c09Str{"SET l[150] = :one", "scaled-update"}, c09Str{"REMOVE l[150]", "scaled-update"},
 		c09Str{"SET nu = if_not_exists(nope, :biglist)", "scaled-update"})
